@@ -654,14 +654,13 @@ class ProductState:
             assert isinstance(to, jnp.ndarray)
             operation.compute_dimensions(0, to)
         elif isinstance(operation._operation_type, CompositeOperationType):
-            assert len(states) == len(
-                operation._operation_type.expected_base_state_types
+            # The expected types belong to this operation (not to the shared type)
+            expected_types = operation._operation_type.expected_state_types(
+                **operation.kwargs
             )
+            assert len(states) == len(expected_types)
             for i, s in enumerate(states):
-                op_type = operation._operation_type
-                assert isinstance(
-                    s, op_type.expected_base_state_types[i]  # type: ignore
-                )
+                assert isinstance(s, expected_types[i])
             operation.compute_dimensions(
                 [s._num_quanta if isinstance(s, Fock) else 0 for s in states],
                 [s.trace_out() for s in states],  # type: ignore
